@@ -245,4 +245,40 @@ theorem C04_identity_shortcut_bound (L : M3 F) (t p : V3 F) (eps : F)
 
 end shortcut
 
+section primitive
+
+/-- **`Primitive.apply_transform` with a uniform scale places every point where `M` sends it**: the primitive's sizes are
+    multiplied by `s` (its shape points `q` become `s q`), the translation of its current transform `(C, c)` is
+    multiplied by `s`, and the new transform is `M · scale_matrix(1/s) · (C, s c)`; for `M = (s R, t)` with `s ≠ 0` the
+    new primitive has the rigid transform `(R C, s R c + t)`, and its point `s q` lands exactly on `M` applied to the old
+    placement of `q` -/
+theorem C04_primitive_transform (s : K) (hs : s ≠ 0) (R C : M3 K) (t c q : V3 K) :
+    let updatedL : M3 K := (M3.smul s R) * ((M3.smul (1 / s) 1) * C)
+    let updatedT : V3 K := add ((M3.smul s R).apply (add ((M3.smul (1 / s) (1 : M3 K)).apply (smul s c)) (0, 0, 0))) t
+    updatedL = R * C ∧
+    transformPoint updatedL updatedT (smul s q) = transformPoint (M3.smul s R) t (transformPoint C c q) := by
+  obtain ⟨r00, r01, r02, r10, r11, r12, r20, r21, r22⟩ := R
+  obtain ⟨c00, c01, c02, c10, c11, c12, c20, c21, c22⟩ := C
+  obtain ⟨t1, t2, t3⟩ := t
+  obtain ⟨d1, d2, d3⟩ := c
+  obtain ⟨q1, q2, q3⟩ := q
+  have e : ∀ X Y : M3 K, X * Y = M3.mul X Y := fun _ _ => rfl
+  have o : (1 : M3 K) = M3.one := rfl
+  constructor
+  · simp only [e, o, M3.smul, M3.mul, M3.one]
+    ext <;> simp <;> field_simp <;> ring
+  · simp only [e, o, transformPoint, add, smul, M3.apply, M3.smul, M3.mul, M3.one, Prod.mk.injEq]
+    refine ⟨?_, ?_, ?_⟩ <;> field_simp <;> ring
+
+/-- dividing the translation of `M` by the scale as well (rows of `M` divided, seeded change C04-6) is wrong as soon as
+    `M` translates: witness `M = (2 · 1, (2, 0, 0))`, a primitive at the origin -/
+theorem C04_primitive_transform_witness :
+    let s : Rat := 2
+    let wrongT : V3 Rat := smul (1 / s) (2, 0, 0)      -- the translation column divided with the rows
+    transformPoint (1 : M3 Rat) wrongT (smul s (1, 0, 0)) ≠ transformPoint (M3.smul s 1) (2, 0, 0) (1, 0, 0) := by
+  have o : (1 : M3 Rat) = M3.one := rfl
+  simp [o, transformPoint, add, smul, M3.apply, M3.smul, M3.one]
+
+end primitive
+
 end TV.C04
